@@ -250,8 +250,9 @@ Definition operator_range (d : doc) (start end_ tt : Z) : Z * Z :=
 (* TextObject.cut: None = Document(buffer.text, to, ...) asserts *)
 Definition tobj_cut (d : doc) (start end_ tt : Z) : option (option (str * Z) * clip) :=
   let '(f0, t0) := operator_range d start end_ tt in
-  (* "An empty range (failed motion, empty text object) cuts nothing." *)
-  if negb (tt =? LINEWISE) && (t0 <=? f0) then
+  (* "An empty range (failed motion, empty text object) cuts nothing. (A block
+     object always covers at least the cell under the cursor.)" *)
+  if negb (tt =? LINEWISE) && negb (tt =? TBLOCK) && (t0 <=? f0) then
     Some (mk_document (dtext d) (dcur d), mkclip [] (tobj_selection_type tt))
   else
   let from_ := f0 + dcur d in
